@@ -5,7 +5,7 @@
    machine of encoding/toml/decode.go over the parser's events (Toml/Decode.v).
    The CLI loop (export / import through the cue binary) is explored directly on
    the implementation by the check; there is no theorem about the CLI. *)
-From Verif Require Import Toml.Decode Toml.Proofs.
+From Verif Require Import Toml.Decode Toml.Proofs Toml.Emit.
 From Coq Require Import List NArith Bool.
 Import ListNotations.
 
@@ -47,6 +47,19 @@ Theorem C12_decode_dotted_equiv : forall p q v, p <> [] -> q <> [] ->
   decode [EKeyValue p (VInline [(q, v)])] = decode [EKeyValue (p ++ q) v].
 Proof. exact decode_dotted_equiv. Qed.
 Print Assumptions C12_decode_dotted_equiv.
+
+(* a flat document (root scalars, then [tables] of scalars) without repeated keys is read back as written;
+   decode (emit d) = d for nested tables and arrays of tables is NOT proved (explored by the check) *)
+Theorem C12_decode_emit_flat_partial : forall d, flat_safe d -> decode (emit_flat d) = Ok (tree_flat d).
+Proof. exact decode_emit_flat. Qed.
+Print Assumptions C12_decode_emit_flat_partial.
+
+Example C12_flat_safe_example :
+  flat_safe (mkFlat [(ka, 1%N); (kb, 2%N)] [(kc, [(ka, 3%N)]); (kx, [])]) /\
+  decode (emit_flat (mkFlat [(ka, 1%N); (kb, 2%N)] [(kc, [(ka, 3%N)]); (kx, [])])) =
+  Ok (OStruct [(ka, OLeaf 1%N); (kb, OLeaf 2%N); (kc, OStruct [(ka, OLeaf 3%N)]); (kx, OStruct [])]).
+Proof. exact flat_safe_example. Qed.
+Print Assumptions C12_flat_safe_example.
 
 (* decodeExpr looks at the seen keys only below its own rooted key *)
 Theorem C12_decode_expr_agree : forall arrays v rk s1 s2,
